@@ -5,7 +5,7 @@ A *case* is a plain dict (json-able, replayable)
     kind   'obs' | 'height-differences' | 'coordinates' | 'vectors'
     comp   name of the composition of the cluster under test (COMPS[kind])
     band   0 .. dim-1
-    fam    0 | 1        positive-definite value family
+    fam    0 | 1 | 2    positive-definite value family (2: every variance == sigma-apr^2 exactly)
     excl   sorted list of excluded slots (0-based rows of the cluster)
     mode   'blunder' | 'point'   how gama is made to exclude them
     order  0 | 1        cluster under test written before / after the backbone
@@ -34,6 +34,12 @@ def fam_value(f, i, j):
         if k == 0:
             return SIG * SIG * (1.00 + 0.13 * i)
         return SIG * SIG * (0.12 / k) * (1.0 + 0.05 * i + 0.02 * j)
+    if f == 2:
+        # every variance equals sigma-apr^2 EXACTLY (cofactor diagonal exactly 1,
+        # "unit weights"), the covariances inside the band are not zero
+        if k == 0:
+            return SIG * SIG
+        return SIG * SIG * ((-1) ** (k + 1)) * (0.11 / k) * (1.0 + 0.03 * i + 0.04 * j)
     if k == 0:
         return SIG * SIG * (1.70 - 0.11 * i)
     return SIG * SIG * ((-1) ** k) * (0.10 / k) * (1.0 + 0.04 * i + 0.03 * j)
@@ -126,7 +132,8 @@ def check_families(maxdim=6):
     """the alphabet's promises: diagonally dominant, condition < 20, all
     elements of one matrix distinct"""
     worst = 0.0
-    for f in (0, 1):
+    assert SIG == M0              # family 2: variance == sigma-apr^2
+    for f in (0, 1, 2):
         for d in range(1, maxdim + 1):
             for b in range(d):
                 C = dense_cov(d, b, f)
@@ -135,8 +142,10 @@ def check_families(maxdim=6):
                 lo, hi = sym_eigen_range(C)
                 assert lo > 0 and hi / lo < 20, (f, d, b, lo, hi)
                 worst = max(worst, hi / lo)
-                vals = [C[i][j] for i in range(d) for j in range(i, min(d, i + b + 1))]
+                vals = [C[i][j] for i in range(d) for j in range(i, min(d, i + b + 1)) if not (f == 2 and i == j)]
                 assert len(set(vals)) == len(vals), (f, d, b)
+                if f == 2:
+                    assert all(C[i][i] / (M0 * M0) == 1.0 for i in range(d)) and all(v != 0.0 for v in vals)
     return worst
 
 
@@ -376,13 +385,13 @@ def build(case):
                 for f in ["A", "B"]:
                     bobs.append(Obs("vec", frm=f, to=n, err=tuple(_noise(case, k + q, SIG * 1e-3, True) for q in range(3)))); k += 3
             bdim = 3 * len(bobs)
-            backbone = [Cluster("vectors", bobs, cov=band_rows(dense_cov_big(bdim, 2, 1 - fam), 2))]
+            backbone = [Cluster("vectors", bobs, cov=band_rows(dense_cov_big(bdim, 2, _other_fam(fam)), 2))]
         else:
             bobs = []; k = 0
             for n in new:
                 bobs.append(Obs("coord", to=n, comps="xyz", err=tuple(_noise(case, k + q, SIG * 1e-3, True) for q in range(3)))); k += 3
             bdim = 3 * len(bobs)
-            backbone = [Cluster("coordinates", bobs, cov=band_rows(dense_cov_big(bdim, 1, 1 - fam), 1)),
+            backbone = [Cluster("coordinates", bobs, cov=band_rows(dense_cov_big(bdim, 1, _other_fam(fam)), 1)),
                         Cluster("height-differences",
                                 [Obs("dh", frm="A", to=n, stdev=SIG, err=_noise(case, 9 + i, SIG * 1e-3, True)) for i, n in enumerate(new)])]
     for p in extra:
@@ -393,6 +402,11 @@ def build(case):
     _round_values(net)
     net.points = [p for p in net.points if getattr(p, "declare", True)]
     return {"net": net, "test": test, "C": C, "elems": elems, "dim": dim, "helpers": [p.id for p in extra]}
+
+
+def _other_fam(fam):
+    """family of the backbone matrices"""
+    return 1 - fam if fam in (0, 1) else 1
 
 
 def dense_cov_big(dim, band, fam):
@@ -888,6 +902,8 @@ def form_cov(dim, form):
         return dense_cov(dim, 0, 0), min(1, dim - 1)
     if form == "Zf":
         return dense_cov(dim, 0, 0), dim - 1
+    if form == "U":
+        return dense_cov(dim, dim - 1, 2), dim - 1
     raise ValueError(form)
 
 
